@@ -82,7 +82,9 @@ def Ham.ConstW (H : Ham) (b : Nat) : Prop :=
 def xorB (x y : List Bool) : List Bool := List.zipWith (fun p q => p != q) x y
 
 /-- the flip mask of one op: which input / output legs differ -/
-def maskOp (ob oa : Op) : Op := { ob with ins := xorB ob.ins oa.ins, outs := xorB ob.outs oa.outs }
+def maskOp (ob oa : Op) : Op :=
+  { vars := ob.vars, bond := ob.bond, ins := xorB ob.ins oa.ins, outs := xorB ob.outs oa.outs,
+    tagDiag := false, const := ob.const }
 
 def maskSlots : Slots → Slots → Slots
   | some ob :: tb, some oa :: ta => some (maskOp ob oa) :: maskSlots tb ta
@@ -294,5 +296,41 @@ def freeRefresh (sk : Skel) : Nat → List Bool → RS → List Bool × RS
       let r := s.genBool (1 / 2)
       let rest := freeRefresh sk (v + 1) xs r.2
       (r.1 :: rest.1, rest.2)
+
+/-! ### the transverse-field Ising matrix elements (`QmcIsingGraph::hamiltonian`) -/
+
+def absR (x : Rat) : Rat := if x < 0 then -x else x
+
+/-- `two_site_hamiltonian` -/
+def twoSiteW (J : Rat) (i o : List Bool) : Rat :=
+  match i, o with
+  | [a, b], [c, d] => if a == c && b == d then absR J + (if a == b then -J else J) else 0
+  | _, _ => 0
+
+/-- `transverse_hamiltonian` -/
+def transverseW (g : Rat) (_i _o : List Bool) : Rat := g
+
+/-- `longitudinal_hamiltonian` -/
+def longitudinalW (h : Rat) (i o : List Bool) : Rat :=
+  match i, o with
+  | [a], [c] => absR h + (if a != c then 0 else if a then h else -h)
+  | _, _ => 0
+
+/-- bond numbering of `QmcIsingGraph`: edges, then one transverse bond per variable (constant),
+then one longitudinal bond per variable -/
+def isingClusterHam (edges : List (List Nat × Rat)) (g h : Rat) (nvars : Nat) : Ham :=
+  { nbonds := edges.length + 2 * nvars
+    vars := fun b =>
+      if b < edges.length then (edges[b]?.map (·.1)).getD []
+      else if b < edges.length + nvars then [b - edges.length]
+      else [b - edges.length - nvars]
+    const := fun b => decide (edges.length ≤ b ∧ b < edges.length + nvars)
+    w := fun b i o =>
+      if b < edges.length then twoSiteW ((edges[b]?.map (·.2)).getD 0) i o
+      else if b < edges.length + nvars then transverseW g i o
+      else longitudinalW h i o }
+
+/-- the closure of `single_cluster_step` / `timestep` for `h ≠ 0`: ratio 0 on longitudinal bonds -/
+def isingFrozen (nedges nvars : Nat) (o : SkOp) : Bool := decide (nedges + nvars ≤ o.bond)
 
 end Qmc
